@@ -562,6 +562,14 @@ func (q *TaskQueue) waitForTask(sleepDelay time.Duration) task.Task {
 			// Queue is stopped.
 			return nil
 		case <-checkTicker.C:
+			// select chooses randomly when both channels are ready:
+			// do not go on to return a task if the queue is already stopped.
+			select {
+			case <-q.ctx.Done():
+				return nil
+			default:
+			}
+
 			// Check and update waitUntil.
 			elapsed := time.Since(waitBegin)
 
